@@ -56,7 +56,9 @@ def _params_concrete(kind, coef, exp, pv):
     elif kind == 2:
         top.u = P.Vdc(dc=v, ac=v)(p=a, n=b)
     elif kind == 3:
-        top.u = P.Vpulse(v1=v, v2=2 * v, delay=v, rise=v, fall=v, width=v, period=v)(p=a, n=b)
+        # pulse source: renamed parameters; unset fields (coef odd) are not exported and must import back as unset
+        top.u = P.Vpulse(v1=v, v2=2 * v, delay=v if coef % 2 == 0 else None, rise=v, fall=v if coef % 3 else None, width=v, period=v)(p=a, n=b)
+        top.u2 = P.R(r=h.Literal("%d" % coef) if exp == 0 else h.Literal("r*%d" % coef))(p=a, n=b)  # numeric-looking literal on a Scalar field
     elif kind == 4:
         top.u = P.Mos(w=v, l=v, npar=max(1, abs(coef)), tp=P.MosType.PMOS if coef % 2 else P.MosType.NMOS,
                       vth=P.MosVth.LOW if exp % 2 else P.MosVth.STD)(d=a, g=b, s=a, b=b)
